@@ -392,7 +392,7 @@ def trunc_trial(ctx, sim, second, rng, reqs, frames_of, t, chunk_mode, register_
             fresh.close()
         ctx.count('monitor:fresh-session')
         # connection table back to its baseline (the long-lived session is part of the baseline)
-        for _ in range(100):
+        for _ in range(1000):      # 10 s: a watchdog for "never", not a performance requirement
             if sim.connections() <= base_conns:
                 break
             time.sleep(0.01)
